@@ -406,6 +406,86 @@ def run(check, mirror, tier):
                     return last
             return last
         jobs.append(lambda c: decide(c, crate_feel, "typed_input/xsd_%s/%d_%d" % (kind, ki, kf), setup, post, replay, rb, models=A.ATOM_MODELS, unwind=6, describe=desc, max_cex=2))
+    # --- text -> decimal library: dec_from_string hands the library the text it was given, all of it ---------------------------------------
+    check.bounds.append("text_to_library: dec_from_string on texts `<ki integer digits>[.<kf fraction digits>]` for (ki, kf) in (1,0), (34,0), (45,0), (1,44), (20,25): up to 46 characters")
+
+    def mk_from_string(ki, kf):
+        def setup(ex, st):
+            a = ex.fresh_int(st, "u128", "int_digits", constrain=False)
+            ex.assume(st, z3.And(a.e >= 0, a.e < 10 ** ki))
+            atoms = [("digits", a.e, ki)]
+            inputs = dict(int_digits=a.e, ki=ki, kf=kf)
+            if kf:
+                b = ex.fresh_int(st, "u128", "frac_digits", constrain=False)
+                ex.assume(st, z3.And(b.e >= 0, b.e < 10 ** kf))
+                atoms += [("lit", "."), ("digits", b.e, kf)]
+                inputs["frac_digits"] = b.e
+            inputs["_atoms"] = atoms
+            text = A.mk(atoms)
+            val = lambda st, x: deref(ex, st, x) if isinstance(x, Ref) else x
+
+            def m_cstring_new(ex, st, callee, args, dest_ty):
+                yield st, En("Result", z3.IntVal(0), {"Ok": (Opaque("CString", info=val(st, args[0])),), "Err": (Opaque("NulError"),)})
+
+            def m_unwrap_or_default(ex, st, callee, args, dest_ty):
+                yield st, args[0].alts["Ok"][0]
+
+            def m_as_ptr(ex, st, callee, args, dest_ty):
+                c = val(st, args[0])
+                yield st, (c if isinstance(c, Opaque) and c.sort in ("CString", "ptr") else Opaque("ptr", info=c))
+
+            def m_from_string(ex, st, callee, args, dest_ty):
+                p_ = val(st, args[1])
+                st.log.append(("library_text", p_.info if isinstance(p_, Opaque) else p_))
+                yield st, Opaque("ptr")
+            ffi = [(re.compile(r"^CString::new::<.*>$"), m_cstring_new), (re.compile(r"^Result::<CString, NulError>::unwrap_or_default$"), m_unwrap_or_default),
+                   (re.compile(r"^<CString as Deref>::deref$|^CStr::as_ptr$|^CString::as_ptr$|^CString::as_c_str$"), m_as_ptr),
+                   (re.compile(r"^<(dec::)?DEFAULT_CONTEXT as Deref>::deref$|^<(dec::)?DecContext as Clone>::clone$"), lambda ex, st, c, a, d: iter([(st, Opaque("ffi"))])),
+                   (re.compile(r"^<(dec::)?DecQuad as Default>::default$"), lambda ex, st, c, a, d: iter([(st, Opaque("DecQuad", "result"))])),
+                   (re.compile(r"(^|::)decQuadFromString$"), m_from_string)]
+
+            def runner(ex, st):
+                ex.models[:0] = ffi
+                try:
+                    yield from ex.run("dec_from_string", [text], st)
+                except MirUnsupported as e:
+                    # code between the text and the library call that no model covers (byte buffers, copies): what reaches the library is then
+                    # arbitrary as far as this obligation knows; the native replay over long texts decides
+                    st2 = st.fork()
+                    st2.log.append(("beyond_model", str(e)[:200]))
+                    yield Outcome("return", st2, None)
+            return runner, None, inputs
+
+        def post(ex, o, v):
+            texts = [e[1] for e in o.st.log if e[0] == "library_text"]
+            beyond = [e for e in o.st.log if e[0] == "beyond_model"]
+            same = z3.BoolVal(False)
+            if len(texts) == 1 and isinstance(texts[0], StrV) and not beyond:
+                same = same_atoms(A.atoms_of(texts[0]), v["_atoms"])
+            return [("the decimal library is handed the text itself, every character of it", same)]
+
+        def replay(i, rb):
+            from decimal import Decimal, getcontext
+            getcontext().prec = 200
+            pool = ["1" + "0" * (ki - 1) + (("." + "0" * (kf - 1) + "1") if kf and ki == 1 else ("." + "0" * kf if kf else "")), "7" * min(ki, 30) + "0" * max(ki - 30, 0) + ("." + "5" + "0" * (kf - 1) if kf else "")]
+            last = (False, "")
+            for t in pool:
+                sig = t.replace(".", "").strip("0")
+                if len(sig) > 34:
+                    continue
+                _, out, _ = replay_call(rb, ["number_display", t])
+                try:
+                    bad = Decimal(out.strip()) != Decimal(t)
+                except Exception:
+                    bad = True
+                last = (bad, "FeelNumber::from_str(%s) prints %s" % (t, out.strip()[:70]))
+                if bad:
+                    return last
+            return last
+        jobs.append(lambda c: decide(c, crate, "text_to_library/dec_from_string/%d_%d" % (ki, kf), setup, post, replay, rb, models=A.ATOM_MODELS, unwind=8, max_cex=1,
+                                     describe=lambda m, v: {k: model_value(m, x) for k, x in v.items() if not k.startswith("_")}))
+    for ki, kf in ((1, 0), (34, 0), (45, 0), (1, 44), (20, 25)):
+        mk_from_string(ki, kf)
     import feelvals as _fv
     U_NUMBER = _fv.Universe(mirror).idx("Number")
     for kind in ("integer", "decimal", "double"):
